@@ -23,10 +23,11 @@ each of which, when broken, makes some grammar's parser accept or reject wrongly
 """
 import re
 
-from ..mir import Mir, Exprs, canon, parse_at, inline_helpers
+from ..mir import Mir, Exprs, canon, parse_at, inline_helpers, short_path
 from ..syn import Syn, nodes, ident_of, unparse, method_chain
 from .. import tpl
 from ..report import Result, finish
+from ..roles import roles_of
 
 
 def agg_fields(fn, ex, adt_suffix, variant=None):
@@ -49,6 +50,11 @@ def check_renumber(mir, res, rule):
         return
     f = norm[0]
     ex = Exprs(f)
+    R = roles_of(mir)
+    UPD, FROM_MAP = R.sp("updater_update"), R.sp("updater_from_map")
+    if R.updater_update is None or R.updater_from_map is None:
+        res.floor("anchor: index updater (usize -> usize look-up and its constructor from a Vec<usize>)", 0, 1)
+        return
     ms = agg_fields(f, ex, "machine::Machine")
     if len(ms) != 1:
         res.unanalysable(rule, "normaliser|machine-aggregate", f.where, "expected one Machine aggregate, found %d" % len(ms))
@@ -65,7 +71,7 @@ def check_renumber(mir, res, rule):
     if arg != "param1.states":
         res.violate(rule, "normaliser|sort-input", sortc[0].where, "the states that are sorted are `%s`, not the automaton's own state list" % arg)
     upd = "%s.1" % U
-    want_start = re.compile(r"^StateIndex::StateIndex\{IndexUpdater::update\(%s, const\(0_usize\)\)\}$" % re.escape(upd))
+    want_start = re.compile(r"^StateIndex::StateIndex\{%s\(%s, const\(0_usize\)\)\}$" % (UPD, re.escape(upd)))
     vals["start"] = inline_helpers(mir, vals.get("start", ""), kinds=("Closure",))
     res.inst(rule, "normaliser|start", w, True, vals.get("start", "")[:160])
     if not want_start.match(vals.get("start", "")):
@@ -77,7 +83,8 @@ def check_renumber(mir, res, rule):
         res.violate(rule, "normaliser|states", w, "the state list must be the sorted list of the same sort whose updater renumbers the transitions; found `%s`" % st[:200])
     tr = vals.get("transitions", "")
     res.inst(rule, "normaliser|transitions", w, True, tr[:200])
-    WANT_T = {"from": "StateIndex::StateIndex{IndexUpdater::update(%s, %s.from.0)}", "to": "StateIndex::StateIndex{IndexUpdater::update(%s, %s.to.0)}", "symbol": "%s.symbol"}
+    UPDN = R.nm("updater_update")
+    WANT_T = {"from": "StateIndex::StateIndex{" + UPDN + "(%s, %s.from.0)}", "to": "StateIndex::StateIndex{" + UPDN + "(%s, %s.to.0)}", "symbol": "%s.symbol"}
 
     def closures(g):
         return [c_ for c_ in mir.fns.values() if c_.kind == "Closure" and c_.parent == g.key]
@@ -173,7 +180,7 @@ def check_renumber(mir, res, rule):
         srt = [c for c in g.calls() if (c.rpath or "").endswith("sort_by_key") or (c.rpath or "").endswith("sort_unstable_by_key")]
         cls = {c_.path.rsplit("::", 1)[-1]: canon(Exprs(c_).local(0)) for c_ in mir.fns.values() if c_.kind == "Closure" and c_.parent == g.key}
         res.inst(rule, "sort|map", g.where, True, "%s ; closures %s" % (rg[:160], cls))
-        okm = re.match(r"^IndexUpdater::from_map\(Iterator::collect\(Iterator::map\(IntoIterator@Vec::into_iter\(([\w:]+\(param1\))\), [\w:]+::(\{closure#\d+\})\{\}\)\)\)$", rg)
+        okm = re.match(r"^" + FROM_MAP + r"\(Iterator::collect\(Iterator::map\(IntoIterator@Vec::into_iter\(([\w:]+\(param1\))\), [\w:]+::(\{closure#\d+\})\{\}\)\)\)$", rg)
         good = False
         if okm and len(srt) == 1:
             sorted_what = canon(Exprs(g).operand(srt[0].args[0]))
@@ -183,13 +190,13 @@ def check_renumber(mir, res, rule):
         if not good:
             res.violate(rule, "sort|map", g.where, "the updater's map must list `new` in ascending order of `old` (sort_by_key(old), map(new)); found `%s` with %s" % (rg[:200], cls))
     res.floor("updater map builders", len(mk), 1)
-    up = [g for g in mir.fns.values() if g.impl and g.impl["self_ty"]["head"].endswith("IndexUpdater") and g.name == "update"]
+    up = [R.updater_update]
     for g in up:
         ru = canon(Exprs(g).local(0))
         res.inst(rule, "updater|update", g.where, True, ru)
         if ru != "Index@Vec::index(param1.index_map, param2)":
             res.violate(rule, "updater|update", g.where, "update(i) must be map[i]; found `%s`" % ru)
-    fm = [g for g in mir.fns.values() if g.impl and g.impl["self_ty"]["head"].endswith("IndexUpdater") and g.name == "from_map"]
+    fm = [R.updater_from_map]
     for g in fm:
         ru = canon(Exprs(g).local(0))
         if ru != "IndexUpdater::IndexUpdater{param1}":
@@ -204,9 +211,10 @@ def short(par, g):
 
 
 def check_goto_fill(mir, res, rule):
-    bset = [g for g in mir.fns.values() if g.name == "set_goto" and g.impl and g.impl["self_ty"]["head"].endswith("TableBuilder")]
+    R = roles_of(mir)
+    bset = [R.builder_set_goto] if R.builder_set_goto is not None else []
     if len(bset) != 1:
-        res.floor("anchor: builder set_goto", len(bset), 1)
+        res.floor("anchor: the builder's goto writer (&mut TableBuilder, .., Goto)", R.count("builder_set_goto"), 1)
         return
     n = 0
     for f in mir.fns.values():
@@ -239,9 +247,15 @@ def check_move(mir, res, rule):
     ex = Exprs(f)
     ret = canon(ex.local(0))
     seen = set()
+    R = roles_of(mir)
+    writers = {}
+    if R.table_set_action is not None:
+        writers[R.table_set_action.key] = "set_action"
+    if R.table_set_goto is not None:
+        writers[R.table_set_goto.key] = "set_goto"
     for c in f.calls():
-        nm = (c.rpath or "").rsplit("::", 1)[-1]
-        if nm in ("set_action", "set_goto") and "table::Table" in (c.rpath or ""):
+        nm = writers.get(c.rkey) if c.local else None
+        if nm is not None:
             a = [canon(ex.operand(x)) for x in c.args]
             fld = "actions" if nm == "set_action" else "gotos"
             K = "(Iterator@IntoIter::next(IntoIterator@HashMap::into_iter(param2.%s)) as Some).0" % fld
@@ -286,23 +300,28 @@ def check_empty(mir, res, rule):
 
 
 def check_index(mir, res, rule):
-    T = [g for g in mir.fns.values() if g.impl and g.impl["self_ty"]["head"].endswith("table::Table") and not g.derived]
-    by = {g.name: g for g in T}
+    R = roles_of(mir)
+    # reader / writer / index function of each array, found by signature: (&Table, state, symbol) -> Action|Goto,
+    # (&mut Table, state, symbol, Action|Goto), (&Table, state, symbol) -> usize
+    by = {"action": R.table_action, "set_action": R.table_set_action, "action_index": R.table_action_index,
+          "goto": R.table_goto, "set_goto": R.table_set_goto, "goto_index": R.table_goto_index, "state_count": R.table_state_count}
+    by = {k: v for k, v in by.items() if v is not None}
     n = 0
     for (rd, wr, ix, arr) in (("action", "set_action", "action_index", "actions"), ("goto", "set_goto", "goto_index", "gotos")):
         if not all(k in by for k in (rd, wr, ix)):
             res.floor("anchor: Table::%s/%s/%s" % (rd, wr, ix), 0, 1)
             continue
         n += 1
+        IX = short_path(by[ix].path)
         r_ = canon(Exprs(by[rd]).local(0))
-        want_r = "Index@Vec::index(param1.%s, Table::%s(param1, param2, param3))" % (arr, ix)
+        want_r = "Index@Vec::index(param1.%s, %s(param1, param2, param3))" % (arr, IX)
         res.inst(rule, "reader|%s" % rd, by[rd].where, True, r_)
         if r_ != want_r:
-            res.violate(rule, "reader|%s" % rd, by[rd].where, "the reader must return `%s[%s(state, symbol)]`; found `%s`" % (arr, ix, r_[:200]))
+            res.violate(rule, "reader|%s" % rd, by[rd].where, "the reader must return `%s[%s(state, symbol)]`; found `%s`" % (arr, IX, r_[:200]))
         w = by[wr]
         exw = Exprs(w)
         im = [c for c in w.calls() if (c.rpath or "").endswith("IndexMut<I>>::index_mut")]
-        okw = len(im) == 1 and [canon(exw.operand(a)) for a in im[0].args] == ["param1.%s" % arr, "Table::%s(param1, param2, param3)" % ix]
+        okw = len(im) == 1 and [canon(exw.operand(a)) for a in im[0].args] == ["param1.%s" % arr, "%s(param1, param2, param3)" % IX]
         stores = []
         for b in w.blocks:
             if b["cleanup"]:
@@ -313,7 +332,7 @@ def check_index(mir, res, rule):
         okw = okw and stores == ["param4"]
         res.inst(rule, "writer|%s" % wr, w.where, True, "index_mut args ok=%s stores=%s" % (okw, stores))
         if not okw:
-            res.violate(rule, "writer|%s" % wr, w.where, "the writer must store its value at `%s[%s(state, symbol)]` — the same index function, same argument order as the reader" % (arr, ix))
+            res.violate(rule, "writer|%s" % wr, w.where, "the writer must store its value at `%s[%s(state, symbol)]` — the same index function, same argument order as the reader" % (arr, IX))
         ri = inline_helpers(mir, canon(Exprs(by[ix]).local(0)))
         if ix == "action_index":
             W = r"\(Vec::len\(param1\.terminals\) AddWithOverflow const\(1_usize\)\)\.0"
@@ -342,6 +361,11 @@ def check_index(mir, res, rule):
 def check_kinds(ctx, syn, efile, ts, res, rule, prule, mir=None):
     from .c05 import is_index
     mir = mir or Mir(ctx["facts"]["mir"])
+    R = roles_of(mir)
+    # method names of the table's accessors as the emitter's source spells them (found by signature, roles.py)
+    # (the syntax tree is loaded with role functions under their canonical names, see kv/syn.py)
+    SC = "state_count"
+    RD = {"action": "action", "goto": "goto"}
     fmt = [t for t in ts if t.is_format]
     for t in fmt:
         if t.tokens is None:
@@ -367,7 +391,7 @@ def check_kinds(ctx, syn, efile, ts, res, rule, prule, mir=None):
             if chain_txt is not None:
                 if re.match(r"^self\.file\.(terminal_enum\.variants|nonterminals)\.iter\.enumerate\.map$", chain_txt):
                     ok = is_index(t, idx)
-                elif re.match(r"^\(?0\.\.self\.(table\.state_count\(\)|\w+\(\))\)?\.map$", chain_txt):
+                elif re.match(r"^\(?0\.\.self\.(table\.%s\(\)|\w+\(\))\)?\.map$" % SC, chain_txt):
                     # closure parameter itself is the position; the variant name must carry the same number
                     name_ph = [p_[1] for p_ in (tk[0].parts if tk[0].k == "mixed" else []) if p_[0] == "ph"]
                     ok = b is not None and bool(name_ph) and name_ph[-1] == idx
@@ -378,7 +402,7 @@ def check_kinds(ctx, syn, efile, ts, res, rule, prule, mir=None):
                         rc = canon(Exprs(cf[0]).local(0)) if len(cf) == 1 else "?"
                         cls = [canon(Exprs(g).local(0)) for g in mir.fns.values() if g.kind == "Closure" and cf and g.parent == cf[0].key]
                         okc = (re.match(r"^Iterator::sum\(Iterator::map\(slice::iter\(param1\.file\.nonterminals\), [\w:]+::\{closure#0\}\{\}\)\)$", rc) is not None and len(cls) == 1
-                               and set(cls[0][4:-1].split(" | ")) == {"Vec::len((param2 as Enum).0.variants)", "const(1_usize)"}) or re.match(r"^Iterator(@\w+)?::count\(File::get_rules\(param1\.file\)\)$", rc) is not None
+                               and set(cls[0][4:-1].split(" | ")) == {"Vec::len((param2 as Enum).0.variants)", "const(1_usize)"}) or re.match(r"^Iterator(@\w+)?::count\(%s\(param1\.file\)\)$" % R.sp("file_get_rules"), rc) is not None
                         res.inst(rule, "rule-count|%s" % mc.group(1), cf[0].where if cf else t.where, True, "%s ; %s" % (rc[:120], cls))
                         if not okc:
                             res.violate(rule, "rule-count|%s" % mc.group(1), cf[0].where if cf else t.where, "the number of rule-kind variants must be the number of rules (one per struct, one per enum variant of every declared nonterminal); `%s` computes `%s` %s — a dispatch arm then names a variant that does not exist, or reductions are numbered past the enum" % (mc.group(1), rc[:160], cls))
@@ -408,8 +432,9 @@ def check_kinds(ctx, syn, efile, ts, res, rule, prule, mir=None):
 
     for (p, impl, fn) in all_f:
         for m in nodes(fn["body"], "MethodCall"):
-            if not (m["method"] in ("action", "goto") and unparse(m["recv"]).replace(" ", "") == "self.table" and len(m["args"]) == 2):
+            if not (m["method"] in RD and unparse(m["recv"]).replace(" ", "") == "self.table" and len(m["args"]) == 2):
                 continue
+            mrole = RD[m["method"]]
             n_cell += 1
             a0, a1 = [unparse(a).replace(" ", "") for a in m["args"]]
             sp = state_params(fn)
@@ -427,7 +452,7 @@ def check_kinds(ctx, syn, efile, ts, res, rule, prule, mir=None):
                     if cp2 is not None and bool(sp2) and b0 == sp2[0] and b1 == cp2:
                         cp, src, row_fn = a1, src2, fn2  # (a1 is the item function's own symbol parameter, fed with the closure parameter)
             key = "cell|%s" % fn["name"]
-            want_src = {"action": r"^self\.table\.terminals\.iter\.map\.chain$", "goto": r"^self\.table\.nonterminals\.iter$"}[m["method"]]
+            want_src = {"action": r"^self\.table\.terminals\.iter\.map\.chain$", "goto": r"^self\.table\.nonterminals\.iter$"}[mrole]
             ok = bool(sp) and a0 == sp[0] and a1 == cp and src is not None and re.match(want_src, src) is not None
             res.inst(rule, key, "%s:%d" % (efile, m["line"]), True, "%s(%s, %s) over %s" % (m["method"], a0, a1, src))
             if not ok:
@@ -438,7 +463,7 @@ def check_kinds(ctx, syn, efile, ts, res, rule, prule, mir=None):
                     if c2["method"] == row_fn["name"] and ident_of(c2["recv"]) == "self" and fn2 is not row_fn:
                         ip, rows = closure_and_source(fn2, c2)
                         arg = unparse(c2["args"][0]).replace(" ", "") if c2["args"] else None
-                        okr = arg == "StateIndex(%s)" % ip and rows is not None and re.match(r"^\(?0\.\.self\.table\.state_count\(\)\)?$", rows) is not None
+                        okr = arg == "StateIndex(%s)" % ip and rows is not None and re.match(r"^\(?0\.\.self\.table\.%s\(\)\)?$" % SC, rows) is not None
                         res.inst(rule, "rows|%s" % fn2["name"], "%s:%d" % (efile, c2["line"]), True, "%s(%s) over %s" % (row_fn["name"], arg, rows))
                         if not okr:
                             res.violate(rule, "rows|%s" % fn2["name"], "%s:%d" % (efile, c2["line"]), "row i must be the row of state i for i ascending over all states; found `%s(%s)` over `%s`" % (row_fn["name"], arg, rows))
